@@ -37,7 +37,7 @@ def assumption_audit():
         return dict(ok=False, output="audit program does not build: " + b.stderr[-400:])
     r = subprocess.run([os.path.join(tgt, "release", "audit_std_specs")], capture_output=True, text=True, timeout=600)
     return dict(ok=r.returncode == 0 and r.stdout.startswith("AUDIT-OK"), output=r.stdout.strip()[:800],
-                what="assumed std contracts of prelude/split.rs, trim.rs, str.rs compared with the installed std on every string of length <= 5 over 13 characters (a test of assumptions, not a proof)")
+                what="assumed std contracts of prelude/split.rs, trim.rs, str.rs compared with the installed std on every string of length <= 5 over 13 characters; the f32 ordering model, sort_by and retain contracts of prelude/float.rs compared on all pairs of 1540 floats and lists up to 199 elements (a test of assumptions, not a proof)")
 
 
 def _run_mutant(u, k, f, old, new):
